@@ -70,24 +70,36 @@ def r1_dispatch(report, repo):
   report.expect_instances(rule, len(subs), 8, 'PhaseNode subclasses')
   f = repo.func(TE, 'TestExecutor._execute_node')
   tests = []  # (order, ClassDef, handler name)
-  for n in f.node.body:
-    if isinstance(n, ast.If) and isinstance(n.test, ast.Call) and \
-        call_name(n.test) == 'isinstance' and len(n.test.args) == 2 and \
-        dotted(n.test.args[0]) == lib.param_names(f.node)[1]:
-      c = core._resolve_base(repo, f.module, n.test.args[1])  # pylint: disable=protected-access
-      if c is None:
-        raise core.AnalysisError('cannot resolve isinstance class %s' %
-                                 norm(n.test.args[1]))
-      handler = None
-      if n.body and isinstance(n.body[0], ast.Return) and isinstance(
-          n.body[0].value, ast.Call):
-        handler = last_attr(n.body[0].value)
-        args = [dotted(a) for a in n.body[0].value.args]
-        report.check(args == lib.param_names(f.node)[1:], rule, f.qualname,
-                     n.body[0], n.body[0],
-                     'dispatch to %s passes (node, subtest_rec, in_teardown) '
-                     'unchanged' % handler)
-      tests.append((len(tests), c, handler))
+  g = lib.cfg(f)
+  par = lib.param_names(f.node)[1]
+  tnodes = [n for n in g.nodes if n.kind == 'test' and isinstance(
+      n.ast, ast.Call) and call_name(n.ast) == 'isinstance' and
+            len(n.ast.args) == 2 and dotted(n.ast.args[0]) == par]
+
+  def rank(t):
+    # number of dispatch tests whose failing edge dominates this one
+    return sum(1 for o in tnodes if o is not t and g.dominated_by_edge(
+        t, lambda s_, l, d, _o=o: s_ is _o and l == 'F'))
+  for t in sorted(tnodes, key=rank):
+    c = core._resolve_base(repo, f.module, t.ast.args[1])  # pylint: disable=protected-access
+    if c is None:
+      raise core.AnalysisError('cannot resolve isinstance class %s' %
+                               norm(t.ast.args[1]))
+    handler = None
+    first = t.succ('T')
+    taken = [first] + g.reach([first], avoid=lambda x: any(x is o
+                                                            for o in tnodes),
+                              avoid_edge=lambda a_, l, b_: l == 'exc')
+    rets = [x for x in taken if isinstance(x.ast, ast.Return) and isinstance(
+        x.ast.value, ast.Call)]
+    if len(rets) == 1:
+      handler = last_attr(rets[0].ast.value)
+      args = [dotted(a_) for a_ in rets[0].ast.value.args]
+      report.check(args == lib.param_names(f.node)[1:], rule, f.qualname,
+                   rets[0].ast, rets[0].ast,
+                   'dispatch to %s passes (node, subtest_rec, in_teardown) '
+                   'unchanged' % handler)
+    tests.append((len(tests), c, handler))
   report.expect_instances(rule, len(tests), 3, 'isinstance dispatch branches')
   expected_handlers = {
       'Subtest': '_execute_subtest',
@@ -136,12 +148,14 @@ def _phase_like_table(report, repo, rule, fname, exec_attr, skip_attr,
            'fail_subtest']
   if with_sof:
     atoms += ['sof_opt', 'sof_conf', 'recorded', 'last_fail']
+  # the local holding the executor's outcome for this node
+  oc = lib.local_from(f, lib.calls(attr=exec_attr), 'outcome')
 
   def extra(expr, steps):
     d = dotted(expr)
-    if d == 'outcome.is_terminal':
+    if d == oc + '.is_terminal':
       return 'terminal'
-    if d == 'outcome.is_fail_subtest':
+    if d == oc + '.is_fail_subtest':
       return 'fail_subtest'
     if d == 'self._last_outcome':
       return 'have_last'
@@ -195,16 +209,10 @@ def _phase_like_table(report, repo, rule, fname, exec_attr, skip_attr,
             dotted(t) == 'subtest_rec.outcome' for t in n.ast.targets)
     ]
     if with_sof:
-      over = [
-          n for n, _ in p.steps
-          if n.kind == 'stmt' and isinstance(n.ast, ast.Assign) and any(
-              dotted(t) == 'outcome' for t in n.ast.targets) and
-          not p.calls  # placeholder, replaced below
-      ]
       over = []
       for n, _ in p.steps:
         if n.kind == 'stmt' and isinstance(n.ast, ast.Assign) and \
-            len(n.ast.targets) == 1 and dotted(n.ast.targets[0]) == 'outcome':
+            len(n.ast.targets) == 1 and dotted(n.ast.targets[0]) == oc:
           val = n.ast.value
           if isinstance(val, ast.Call) and last_attr(val) == \
               'PhaseExecutionOutcome' and val.args and ends_with(
